@@ -91,6 +91,8 @@ class OpenIDImplicitGrant(ImplicitGrant):
         except OAuth2Error as error:
             error.redirect_uri = redirect_uri
             error.redirect_fragment = True
+            if error.state is None:
+                error.state = self.request.state
             raise error
         return redirect_uri
 
